@@ -63,3 +63,32 @@ Theorem C20_two_files_read : forall me buf (fs : list qfile),
   reader_read_all me buf (S (total_len fs)) (reader_seek_start (new_reader fs)) = all_rev fs.
 Proof. exact reader_reverse_complete. Qed.
 Print Assumptions C20_two_files_read.
+
+(** C20_seek_present: in a file under 2^63 bytes whose lines are shorter than
+    [me], with strictly increasing non-zero stamps, seeking the stamp of line
+    [t] returns the position of that line (its terminating newline), within
+    the 100 probes the code allows. *)
+Theorem C20_seek_present : forall me (f : qfile) t l ts,
+  0 < me -> lines_ok me f -> stamps_nonzero f -> sorted_ts f -> size_ok f ->
+  nth_error f t = Some (l, ts) ->
+  exists d, seek_ts me f ts = Found (St f t + l) d.
+Proof. exact seek_present. Qed.
+Print Assumptions C20_seek_present.
+
+(** C20_seek_absent, the two outer classes: a stamp newer than every line is
+    reported too-late, one older than every line too-early (never a position,
+    never the depth limit).  [PARTIAL: the not-found class for a stamp between
+    two neighbouring lines is validated by the correspondence, not proved.] *)
+Theorem C20_seek_too_late : forall me (f : qfile) ts,
+  0 < me -> lines_ok me f -> stamps_nonzero f -> size_ok f -> f <> [] ->
+  (forall k l t, nth_error f k = Some (l, t) -> t < ts) ->
+  seek_ts me f ts = TooLate.
+Proof. exact seek_too_late. Qed.
+Print Assumptions C20_seek_too_late.
+
+Theorem C20_seek_too_early : forall me (f : qfile) ts,
+  0 < me -> lines_ok me f -> stamps_nonzero f -> size_ok f -> f <> [] ->
+  (forall k l t, nth_error f k = Some (l, t) -> ts < t) ->
+  seek_ts me f ts = TooEarly.
+Proof. exact seek_too_early. Qed.
+Print Assumptions C20_seek_too_early.
